@@ -286,6 +286,9 @@ func WarningContents(s *gtfs.Static, rendered map[string]Rendered) abs.Seq[bool]
 	for _, w := range s.Warnings {
 		rd, ok := rendered[string(w.File)]
 		good := ok && w.RowNumber >= 1 && w.RowNumber <= len(rd.Rows) && eq(w.RowContent, rd.Rows[w.RowNumber-1]) && eq(w.HeaderContent, rd.Header)
+		if ok && w.RowNumber == 0 { // a warning about the header itself
+			good = eq(w.RowContent, rd.Header) && eq(w.HeaderContent, rd.Header)
+		}
 		out = append(out, good)
 	}
 	return out
